@@ -2,7 +2,7 @@
    Print Assumptions.  S, w, th range over ALL worlds (arbitrary effects of
    identifier reads, property get/set/delete, calls and operators on an
    arbitrary user state) and all values of this. *)
-From V Require Import Common.Base C05.Syntax C05.Sem C05.Lower C05.Frame C05.LowerProofs C05.SimLogic C05.Steps C05.Compose C05.Visit C05.Chain C05.Chain2 C05.Above C05.Visit2 C05.Witness.
+From V Require Import Common.Base C05.Syntax C05.Sem C05.Lower C05.Frame C05.LowerProofs C05.SimLogic C05.Steps C05.Compose C05.Visit C05.Chain C05.Chain2 C05.Above C05.Visit2 C05.Witness C05.Private C05.PrivateProofs.
 
 (* An evaluation reads and writes only the temporaries that occur in the
    expression: fresh temporaries cannot be observed by, or interfere with, any
@@ -328,10 +328,152 @@ Theorem visit_temporaries_above :
 Proof. exact visit_above. Qed.
 Print Assumptions visit_temporaries_above.
 
+(* ---- private names (Private.v, PrivateProofs.v) ----
+   [plower] mirrors lowerPrivateGet/Set/BrandCheck/SetBinOp, the private
+   branches of the **=, ??=, ||=, &&= lowerings and the private call case of
+   visitExprInOut; [peval] runs the emitted helper calls with the helper bodies
+   of runtime.go (__privateGet, __privateSet, __privateIn, __privateMethod,
+   __privateAdd, __accessCheck) over WeakMap/WeakSet primitives; [neval] is the
+   native semantics (PrivateGet, PrivateSet, PrivateFieldAdd,
+   PrivateMethodOrAccessorAdd, "#x in o", ToObject of the base).  All worlds
+   over a user state U paired with the private storage, all operand
+   expressions (already lowered or not), all kinds of private member (field,
+   method, getter, setter, pair; static or not - a static member is the same
+   with the class constructor as the object).
+   Hypotheses: Function.prototype.call is intact ([call_intact], as for
+   optional calls); fields live in WeakMaps and the brand of methods/accessors
+   in a WeakSet (what the class lowering sets up); a duplicated identifier
+   target is a constant binding ([cap_ok], F2c is the counterexample); for a
+   call through a private FIELD or GETTER the callee is not null/undefined
+   unless there are no arguments (F13 is the counterexample). *)
+
+(* t.#x  =>  __privateGet(t, _x [, x_get])  or  __privateMethod(t, _C_instances, x_fn):
+   same result, same TypeError cases (missing brand, null base, setter-only accessor) *)
+Theorem private_get_equiv :
+  forall (U : Type) (w : world (U * pst)) (th terr : val)
+         (names : Z -> pname) (fobj : Z -> Z) (isset : Z -> bool),
+    call_intact (U * pst) w ->
+    (forall x, isset (pn_store (names x)) = match pn_kind (names x) with KField => false | _ => true end) ->
+    forall (F : feat) (t : expr) (x n : Z) (m : tstore) (s : U * pst),
+      peval w th terr fobj isset (fst (plower names F (PGet t x) n)) m s
+      = neval w th terr names fobj (PGet t x) m s.
+Proof. exact private_get_sound. Qed.
+Print Assumptions private_get_equiv.
+
+(* t.#x = v  =>  __privateSet(t, _x, v [, x_set]): the value is evaluated before
+   the brand check, writing a method or a getter-only accessor throws *)
+Theorem private_set_equiv :
+  forall (U : Type) (w : world (U * pst)) (th terr : val)
+         (names : Z -> pname) (fobj : Z -> Z) (isset : Z -> bool),
+    call_intact (U * pst) w ->
+    (forall x, isset (pn_store (names x)) = match pn_kind (names x) with KField => false | _ => true end) ->
+    forall (F : feat) (t : expr) (x : Z) (v : expr) (n : Z) (m : tstore) (s : U * pst),
+      peval w th terr fobj isset (fst (plower names F (PSet t x v) n)) m s
+      = neval w th terr names fobj (PSet t x v) m s.
+Proof. exact private_set_sound. Qed.
+Print Assumptions private_set_equiv.
+
+(* #x in t  =>  __privateIn(_x, t): TypeError on a non-object, no other effect *)
+Theorem private_in_equiv :
+  forall (U : Type) (w : world (U * pst)) (th terr : val)
+         (names : Z -> pname) (fobj : Z -> Z) (isset : Z -> bool)
+         (F : feat) (t : expr) (x n : Z) (m : tstore) (s : U * pst),
+    peval w th terr fobj isset (fst (plower names F (PIn x t) n)) m s
+    = neval w th terr names fobj (PIn x t) m s.
+Proof. exact private_in_sound. Qed.
+Print Assumptions private_in_equiv.
+
+(* t.#x(args)  =>  __privateGet(_n = t, _x).call(_n, args)  /  __privateMethod(...).call(...) *)
+Theorem private_call_equiv :
+  forall (U : Type) (w : world (U * pst)) (th terr : val)
+         (names : Z -> pname) (fobj : Z -> Z) (isset : Z -> bool),
+    call_intact (U * pst) w ->
+    (forall x, isset (pn_store (names x)) = match pn_kind (names x) with KField => false | _ => true end) ->
+    forall (F : feat) (t : expr) (x : Z) (args : list expr) (n : Z),
+      pn_kind (names x) = KMethod \/ args = [] /\ nullish_callee_throws U w terr ->
+      ~ In n (tmps t) -> ~ In n (flat_map tmps args) ->
+      forall (m : tstore) (s : U * pst),
+        observe (peval w th terr fobj isset (fst (plower names F (PCall t x args) n)) m s)
+        = observe (neval w th terr names fobj (PCall t x args) m s).
+Proof. exact private_call_sound. Qed.
+Print Assumptions private_call_equiv.
+
+(* t.#x -= v  =>  __privateSet(_n = t, _x, __privateGet(_n, _x) - v)   (every strict operator)
+   t.#x **= v =>  __privateSet(_n = t, _x, __pow(__privateGet(_n, _x), v)) *)
+Theorem private_arith_assign_equiv :
+  forall (U : Type) (w : world (U * pst)) (th terr : val)
+         (names : Z -> pname) (fobj : Z -> Z) (isset : Z -> bool),
+    call_intact (U * pst) w ->
+    (forall x, isset (pn_store (names x)) = match pn_kind (names x) with KField => false | _ => true end) ->
+    forall (F : feat) (op : binop) (t : expr) (x : Z) (v : expr) (n : Z),
+      strict_op op -> cap_ok (U * pst) w t -> ~ In n (tmps t) -> ~ In n (tmps v) ->
+      forall (m : tstore) (s : U * pst),
+        observe (peval w th terr fobj isset (fst (plower names F (PArith op t x v) n)) m s)
+        = observe (neval w th terr names fobj (PArith op t x v) m s).
+Proof. exact private_arith_assign_sound. Qed.
+Print Assumptions private_arith_assign_equiv.
+
+(* t.#x ||= v, &&= v, ??= v  =>  __privateGet(_n = t, _x) || __privateSet(_n, _x, v) ...
+   and (_k = __privateGet(_n = t, _x)) != null ? _k : __privateSet(_n, _x, v) *)
+Theorem private_logical_assign_equiv :
+  forall (U : Type) (w : world (U * pst)) (th terr : val)
+         (names : Z -> pname) (fobj : Z -> Z) (isset : Z -> bool),
+    call_intact (U * pst) w ->
+    (forall x, isset (pn_store (names x)) = match pn_kind (names x) with KField => false | _ => true end) ->
+    forall (F : feat) (op : lop) (t : expr) (x : Z) (v : expr) (n : Z),
+      cap_ok (U * pst) w t ->
+      (forall k, n <= k < n + 2 -> ~ In k (tmps t) /\ ~ In k (tmps v)) ->
+      forall (m : tstore) (s : U * pst),
+        observe (peval w th terr fobj isset (fst (plower names F (PLog op t x v) n)) m s)
+        = observe (neval w th terr names fobj (PLog op t x v) m s).
+Proof. exact private_logical_assign_sound. Qed.
+Print Assumptions private_logical_assign_equiv.
+
+(* the constructor prologue  __privateAdd(this, _C_instances); __privateAdd(this, _x, init); ...
+   is InitializeInstanceElements (brand, then every field right after its initialiser;
+   adding twice throws) *)
+Theorem private_add_equiv :
+  forall (U : Type) (w : world (U * pst)) (th terr : val) (names : Z -> pname) (isset : Z -> bool),
+    (forall x, isset (pn_store (names x)) = match pn_kind (names x) with KField => false | _ => true end) ->
+    forall l : list pinit, Forall (pinit_ok names isset) l ->
+    forall (m : tstore) (s : U * pst),
+      hinit U w th terr names isset l m s = ninit U w th terr names l m s.
+Proof. exact private_add_sound. Qed.
+Print Assumptions private_add_equiv.
+
+(* every private-name form at once *)
+Theorem private_lowering_sound :
+  forall (U : Type) (w : world (U * pst)) (th terr : val)
+         (names : Z -> pname) (fobj : Z -> Z) (isset : Z -> bool),
+    call_intact (U * pst) w ->
+    (forall x, isset (pn_store (names x)) = match pn_kind (names x) with KField => false | _ => true end) ->
+    forall (F : feat) (f : pform) (n : Z), pform_ok U w terr names f n ->
+    forall (m : tstore) (s : U * pst),
+      observe (peval w th terr fobj isset (fst (plower names F f n)) m s)
+      = observe (neval w th terr names fobj f m s).
+Proof. exact plower_sound. Qed.
+Print Assumptions private_lowering_sound.
+
+(* F13  o.#f(g()) with #f undefined: natively g() runs and then the call throws;
+   the lowered code throws while reading ".call" and never runs g() *)
+Theorem private_call_nullish_callee_refuted :
+  pwit_lowered f13_src <> pwit_native f13_src.
+Proof. exact refuted_F13. Qed.
+Print Assumptions private_call_nullish_callee_refuted.
+
+(* F2c  o.#p ??= 5 where the getter of #p reassigns o: the setter runs on the new object *)
+Theorem private_logical_assign_getter_reassigns_refuted :
+  pwit_lowered f2c_src <> pwit_native f2c_src.
+Proof. exact refuted_F2c. Qed.
+Print Assumptions private_logical_assign_getter_reassigns_refuted.
+
 (* NOT PROVED: the composition of the this-passing case (a?.b?.(x), a.b?.().c?.())
    with the visitor theorem (all per-step ingredients above are proved; the
    induction needs the lowered callee's own temporaries to be tracked across
-   the arguments), the minifySyntax output shapes, private names. *)
+   the arguments); the minify-only dead-chain branch of lowerOptionalChain;
+   private names inside optional chains (o?.#x), t.#x++ / destructuring
+   through __privateWrapper, and the class-level set-up that creates the
+   WeakMaps (F14: one "var _x" shared by every evaluation of the class). *)
 
 (* The full statement of the property - for every world, feature set and
    temporary-free source expression the lowered tree behaves like the source -
